@@ -6,6 +6,14 @@
   structure only, no arithmetic law), in particular for `ℝ`; the refutations exhibit concrete
   libraries over `ℝ`.
 
+  The model carries the CODE VARIANT (`FluidPar.code`): `Code.asWritten` transcribes dbm.py as first
+  read (the two defects present), `Code.repaired` the text with `elif np.sum(mi[1,:]) == 0.:` in the
+  five individual methods and row `[0, 0]` in the single-phase-gas viscosity branch.  The harness
+  determines which variant the tree under test is and runs the correspondence against that variant.
+    * `return_all_eq_individual`            — FULL statement, for the repaired code;
+    * `return_all_eq_individual_partial`    — any variant, the defect conditions as hypotheses;
+    * `not_return_all_eq_individual` & co.  — refutation of the full statement for the code as written.
+
   Hypotheses (each stated explicitly where used):
     * `FlashStable`  — hEq: the phase split returned by the flash does not depend on the
                        warm-start partition coefficients (numerically true to flash tolerance);
@@ -43,11 +51,11 @@ variable {lib : Lib Id α} {par : FluidPar α} {m : List α} {T P : α}
     exclusions are NOT consequences of the code — see `not_return_all_eq_individual`. -/
 theorem return_all_eq_individual_partial (lib : Lib Id α) (par : FluidPar α) (K K' : KSt α) (x : Inp α)
     (hs : ShapeContract lib) (hf : par.fpType < 2 ∨ FlashStable lib x.m x.T x.P)
-    (hd : par.fpType < 2 ∨ (BranchAgree lib x.m x.T x.P ∧ ViscRowsAgree lib x.m x.T x.P)) :
+    (hd : par.fpType < 2 ∨ (BranchAgree lib par x.m x.T x.P ∧ ViscRowsAgree lib par x.m x.T x.P)) :
     (returnAll lib par K x).1 = (individual lib par K' x).1 := by
   obtain ⟨m, T, P, Sa, Ta, clean⟩ := x
   simp only at hf hd
-  have hb : par.fpType < 2 ∨ BranchAgree lib m T P := hd.imp id And.left
+  have hb : par.fpType < 2 ∨ BranchAgree lib par m T P := hd.imp id And.left
   rw [individual_fst hf]
   unfold returnAll
   simp only [bind, pure, apply_ite Prod.fst, phase_fst hf, phase_rhoP Sa hb, phase_sigma Sa hb,
@@ -63,6 +71,19 @@ theorem return_all_eq_individual_single_phase (lib : Lib Id α) (par : FluidPar 
     (returnAll lib par K x).1 = (individual lib par K' x).1 :=
   return_all_eq_individual_partial lib par K K' x hs (Or.inl hfp) (Or.inl hfp)
 
+/-- **C09, fluid particles, FULL statement — for the repaired code** (`Code.repaired`: liquid-total
+    test in the individual methods, gas row in the single-phase-gas viscosity branch): for every
+    library with the shape contract, every particle (gas, liquid, mixed), every cache contents and
+    every input, under the single hypothesis hEq (`FlashStable`, needed for mixed-phase particles
+    only), `return_all` is exactly the tuple assembled from the individual methods. -/
+theorem return_all_eq_individual (lib : Lib Id α) (par : FluidPar α) (K K' : KSt α) (x : Inp α)
+    (hcode : par.code = Code.repaired) (hs : ShapeContract lib)
+    (hf : par.fpType < 2 ∨ FlashStable lib x.m x.T x.P) :
+    (returnAll lib par K x).1 = (individual lib par K' x).1 :=
+  return_all_eq_individual_partial lib par K K' x hs hf
+    (Or.inr ⟨branchAgree_of_repaired lib par x.m x.T x.P (by rw [hcode]; rfl),
+             viscRowsAgree_of_repaired lib par x.m x.T x.P (by rw [hcode]; rfl)⟩)
+
 /-- **Why defect (b) does not reach the returned tuple on the real library.**  Same statement with
     `ViscRowsAgree` replaced by a contract of the library correlations: for dirty particles
     (`status = -1`, which the code forces for fp_type = 2) `us_ellipsoid`, `xfer_sphere` and
@@ -70,13 +91,13 @@ theorem return_all_eq_individual_single_phase (lib : Lib Id α) (par : FluidPar 
     separate the two tuples of a mixed-phase particle. -/
 theorem return_all_eq_individual_dirty_library (lib : Lib Id α) (par : FluidPar α) (K K' : KSt α)
     (x : Inp α) (hs : ShapeContract lib) (hfp : 2 ≤ par.fpType)
-    (hf : FlashStable lib x.m x.T x.P) (hb : BranchAgree lib x.m x.T x.P)
+    (hf : FlashStable lib x.m x.T x.P) (hb : BranchAgree lib par x.m x.T x.P)
     (hdirty : DirtyIgnoresMuP lib) :
     (returnAll lib par K x).1 = (individual lib par K' x).1 := by
   obtain ⟨m, T, P, Sa, Ta, clean⟩ := x
   simp only at hf hb
   have hst : Stable lib par m T P := Or.inr hf
-  have hb' : par.fpType < 2 ∨ BranchAgree lib m T P := Or.inr hb
+  have hb' : par.fpType < 2 ∨ BranchAgree lib par m T P := Or.inr hb
   have hc : effClean par clean = false := by
     unfold effClean; rw [if_neg (Nat.not_lt.mpr hfp)]
   have hc2 : effClean par false = false := by
@@ -134,18 +155,19 @@ theorem zero_entry_density :
 /-- the hypotheses of the partial theorem other than `BranchAgree` hold for this witness -/
 theorem zero_entry_hyps :
     ShapeContract constLib ∧ FlashStable constLib someInput.m someInput.T someInput.P ∧
-    ViscRowsAgree constLib someInput.m someInput.T someInput.P := by
+    ViscRowsAgree constLib mixedPar someInput.m someInput.T someInput.P := by
   refine ⟨constLib_shape, constLib_stable _ _ _, ?_⟩
-  intro _ hl
+  intro _ _ hl
   exact absurd hl (by simp only [mi1, constLib]; exact not_bundle_branch_10)
 
 /-- **The full-strength statement of C09 is FALSE of the code as written** (negation witness for
     defect (a)): stable flash, shape contract, and still the two tuples differ. -/
 theorem not_return_all_eq_individual :
-    ¬ ∀ (lib : Lib Id ℝ) (par : FluidPar ℝ) (K K' : KSt ℝ) (x : Inp ℝ), ShapeContract lib →
-        FlashStable lib x.m x.T x.P → (returnAll lib par K x).1 = (individual lib par K' x).1 := by
+    ¬ ∀ (lib : Lib Id ℝ) (par : FluidPar ℝ) (K K' : KSt ℝ) (x : Inp ℝ), par.code = Code.asWritten →
+        ShapeContract lib → FlashStable lib x.m x.T x.P →
+        (returnAll lib par K x).1 = (individual lib par K' x).1 := by
   intro h
-  have := h constLib mixedPar none none someInput constLib_shape (constLib_stable _ _ _)
+  have := h constLib mixedPar none none someInput rfl constLib_shape (constLib_stable _ _ _)
   have h1 := zero_entry_density.1
   have h2 := zero_entry_density.2
   rw [this] at h1
@@ -164,14 +186,14 @@ theorem viscosity_row_witness :
     norm_num
   · simp only [viscosity, viscosityOfFlash, bind, pure, gasOnlyLib, constLib, mixedPar, gasInput, sum1,
       not_isZero_one, indiv_branch_0, if_false, if_true]
-    norm_num
+    norm_num [Code.asWritten]
 
 /-- … and with a library whose ellipsoid slip velocity depends on the particle viscosity for dirty
     particles (here: `us_ellipsoid = mu_p`) the difference reaches the tuple: slip velocity 1 vs 2.
     Hence `ViscRowsAgree` (or `DirtyIgnoresMuP`) cannot be dropped from the partial theorems. -/
 theorem viscosity_row_reaches_tuple :
     ShapeContract gasOnlyLib ∧ FlashStable gasOnlyLib gasInput.m gasInput.T gasInput.P ∧
-    BranchAgree gasOnlyLib gasInput.m gasInput.T gasInput.P ∧
+    BranchAgree gasOnlyLib mixedPar gasInput.m gasInput.T gasInput.P ∧
     (returnAll gasOnlyLib mixedPar none gasInput).1.us = 1 ∧
     (individual gasOnlyLib mixedPar none gasInput).1.us = 2 := by
   have hst : FlashStable gasOnlyLib gasInput.m gasInput.T gasInput.P := fun _ _ => ⟨rfl, rfl⟩
@@ -183,7 +205,7 @@ theorem viscosity_row_reaches_tuple :
     simp only [slipV_eq (Or.inr hst), shapeV_eq (Or.inr hst)]
     simp only [viscosityV, viscosity, viscosityOfFlash, bind, pure, gasOnlyLib, constLib, mixedPar, gasInput, sum1,
       not_isZero_one, indiv_branch_0, if_false, if_true]
-    norm_num
+    norm_num [Code.asWritten]
 
 end Refutation
 
@@ -193,21 +215,28 @@ section Examples
 /-- the hypotheses of `return_all_eq_individual_partial` are satisfiable by a genuinely two-phase
     particle (mixed fp_type, both phase totals non-zero, flash independent of the cache) -/
 example : ShapeContract twoPhaseLib ∧ FlashStable twoPhaseLib someInput.m someInput.T someInput.P ∧
-    BranchAgree twoPhaseLib someInput.m someInput.T someInput.P ∧
-    ViscRowsAgree twoPhaseLib someInput.m someInput.T someInput.P ∧
+    BranchAgree twoPhaseLib mixedPar someInput.m someInput.T someInput.P ∧
+    ViscRowsAgree twoPhaseLib mixedPar someInput.m someInput.T someInput.P ∧
     ¬ isZero (Num.sum (mi0 twoPhaseLib someInput.m someInput.T someInput.P)) ∧
     ¬ isZero (Num.sum (mi1 twoPhaseLib someInput.m someInput.T someInput.P)) := by
   have h1 : ¬ bundleGasBranch ([1, 1] : List ℝ) := by
     unfold bundleGasBranch; rw [sum11]; exact not_isZero_two
   refine ⟨fun _ _ _ _ _ => Or.inr (Or.inl rfl), fun _ _ => ⟨rfl, rfl⟩, ?_, ?_, ?_, ?_⟩
   · intro _
-    simp only [mi1, twoPhaseLib]
+    simp only [mi1, twoPhaseLib, mixedPar]
     exact ⟨fun h => absurd h not_indiv_branch_11, fun h => absurd h h1⟩
-  · intro _ hl
+  · intro _ _ hl
     simp only [mi1, twoPhaseLib] at hl
     exact absurd hl h1
   · simp only [mi0, twoPhaseLib]; rw [sum11]; exact not_isZero_two
   · simp only [mi1, twoPhaseLib]; rw [sum11]; exact not_isZero_two
+
+/-- the hypotheses of the full theorem are satisfiable by a mixed-phase particle on the repaired
+    code WITH a zero entry in the liquid row (the witness of defect (a)): there the two tuples agree -/
+example : (returnAll constLib mixedParRepaired none someInput).1 =
+    (individual constLib mixedParRepaired none someInput).1 :=
+  return_all_eq_individual constLib mixedParRepaired none none someInput rfl constLib_shape
+    (Or.inr (constLib_stable _ _ _))
 
 /-- … and `DirtyIgnoresMuP` by a library whose correlations ignore the particle viscosity -/
 example : DirtyIgnoresMuP { constLib with usEllipsoid := fun _ _ _ _ _ _ _ => (0 : ℝ) } :=
